@@ -17,7 +17,7 @@ def roles_of(b):
     # A: the other stretch compared with it; T: the mutable RawToken being built
     o = [l for l in sorted(b.var_names) if len(b.defs.get(l, [])) >= 2 and all(sh == NEXT for sh, _, _ in q.def_shapes(b, l, {}))]
     t = [l for l in sorted(b.var_names) if b.locals[l]["mut"] and b.local_ty(l) == "types::RawToken"]
-    if len(o) != 1 or len(t) != 1:
+    if len(o) != 1 or len(t) > 1:
         return None
     others = set()
     for bi, tt in b.calls():
@@ -28,7 +28,10 @@ def roles_of(b):
                     others.add(r)
     if len(others) != 1:
         return None
-    return {o[0]: "O", others.pop(): "A", t[0]: "T"}
+    r = {o[0]: "O", others.pop(): "A"}
+    if t:
+        r[t[0]] = "T"  # (absent when the composed token is built in one literal and pushed directly)
+    return r
 
 
 def keys(ctx, rule):
@@ -118,13 +121,28 @@ def sweep(ctx, rule):
     skip_adv = [s for s in adv if has_fact(b, s[0], roles, SKIP)]
     ctx.check(len(skip_adv) == 1, rule, fn, "skip:advances", "an original stretch entirely before the adjustment stretch is skipped")
     pushes = [(bi, q.shape(q.arg_expr(b, t, 1), roles)) for bi, t in q.calls_to(b, "Vec::<T, A>::push") if q.shape(q.arg_expr(b, t, 0), roles) == "arg1.tokens"]
-    ctx.check(len(pushes) == 1 and pushes[0][1] == "T", rule, fn, "emit", "one token is emitted per overlap")
+    direct = "T" not in inv
+    ctx.check(len(pushes) == 1 and (pushes[0][1] == "T" or direct and pushes[0][1].startswith("RawToken{")), rule, fn, "emit", "one token is emitted per overlap")
     for pb, _ in pushes:
         ctx.check(has_fact(b, pb, roles, OVER) and has_fact(b, pb, roles, _negate(*SKIP)), rule, fn, "emit:non-empty-overlap",
                   "a token is emitted only when o.start < a.end and o.end > a.start (non-empty overlap of half-open stretches)", ctx.site(b, pb))
     in_adv = [s for s in adv if has_fact(b, s[0], roles, NOT_KEEP) and has_fact(b, s[0], roles, OVER)]
     ctx.check(len(in_adv) == 1, rule, fn, "advance:only-when-exhausted", "after an overlap the original stretch advances only when it ends before the adjustment stretch does")
     # token construction
+    MAXS = "cmp::max(O.start,A.start)"
+    DL = "Sub(cast<i32>(A.value.dst_line),cast<i32>(A.value.src_line))"
+    DC = "Sub(cast<i32>(A.value.dst_col),cast<i32>(A.value.src_col))"
+    if direct:
+        # built in one literal: already displaced position, everything else from the original token
+        got = pushes[0][1] if pushes else ""
+        ok_d = False
+        for dl in ("tuple(%s,%s).0" % (DL, DC), DL):
+            for dc in ("tuple(%s,%s).1" % (DL, DC), DC):
+                want = ("RawToken{dst_line:cast<u32>(Add(cast<i32>(%s.0),%s)),dst_col:cast<u32>(Add(cast<i32>(%s.1),%s)),src_line:O.value.src_line,src_col:O.value.src_col,"
+                        "src_id:O.value.src_id,name_id:O.value.name_id,is_range:O.value.is_range}") % (MAXS, dl, MAXS, dc)
+                ok_d = ok_d or got == want
+        ctx.check(ok_d, rule, fn, "token:fields", "the token sits at the start of the overlap (max of the two starts) moved by the adjustment token's generated-minus-original displacement and takes source, original position, name and range flag from the original token", detail=got[:500])
+        return
     defs = [(sh, site) for sh, site, _ in q.def_shapes(b, inv["T"], roles)]
     lit = [sh for sh, _ in defs if sh.startswith("RawToken{")]
     MAXS = "cmp::max(O.start,A.start)"
